@@ -333,6 +333,8 @@ def regrid(rng, g):
     """a grid related to `g`: sub-grid, refinement, shifted or overlapping copy"""
     if len(g) < 2 or rng.random() < 0.15:
         return gen_grid(rng)
+    if rng.random() < 0.35:
+        return partial_share(rng, g)
     r = rng.random()
     if r < 0.3:      # contiguous sub-grid (FunctionSignal then sets buffers)
         a = rng.randint(0, len(g) - 1)
@@ -348,6 +350,50 @@ def regrid(rng, g):
         return [g[0] - d] + [x + d / 4 for x in g] + [g[-1] + 2 * d]
     d = rng.choice([-1.0, 0.25, 4.0])
     return [x + d for x in g]
+
+
+def partial_share(rng, g):
+    """a grid that shares SOME BUT NOT ALL of (length, first time, last time, interior points, spacing) with
+    `g` (len(g) >= 2): the cases a shortcut like "same length and same end points => same grid" gets wrong"""
+    import numpy as np
+    n = len(g)
+    kind = rng.randrange(8)
+    if kind == 0 and n >= 3:      # same length, same end points, some interior points moved (others shared)
+        out = list(g)
+        moved = False
+        for i in range(1, n - 1):
+            if rng.random() < 0.6:
+                out[i] = g[i] + (g[i + 1] - g[i]) * rng.choice([0.5, 0.25]) if rng.random() < 0.5 \
+                    else g[i] - (g[i] - g[i - 1]) * rng.choice([0.5, 0.25])
+                moved = True
+        if not moved:
+            out[1] = (g[1] + g[2]) / 2 if n > 3 else g[1] + (g[2] - g[1]) / 2
+        return out
+    if kind == 1:                 # regularised: uniform grid of the same length over the same span
+        return [float(x) for x in np.linspace(g[0], g[-1], n)]
+    if kind == 2:                 # same span, one sample more / fewer
+        return [float(x) for x in np.linspace(g[0], g[-1], max(2, n + rng.choice([-1, 1, 2])))]
+    if kind == 3:                 # same length and first time, other spacing (last time differs)
+        d = (g[1] - g[0]) * rng.choice([0.5, 2.0, 0.75])
+        return [g[0] + d * i for i in range(n)]
+    if kind == 4:                 # same length and last time, other spacing (first time differs)
+        d = (g[1] - g[0]) * rng.choice([0.5, 2.0, 0.75])
+        return [g[-1] - d * (n - 1 - i) for i in range(n)]
+    if kind == 5:                 # same interior points, end points moved (by one ulp or by a quarter step)
+        out = list(g)
+        if rng.random() < 0.5:
+            out[0] = float(np.nextafter(g[0], -np.inf if rng.random() < 0.5 else np.inf))
+            out[-1] = float(np.nextafter(g[-1], np.inf if rng.random() < 0.5 else -np.inf))
+        else:
+            out[0] = g[0] - (g[1] - g[0]) / 4
+            out[-1] = g[-1] + (g[-1] - g[-2]) / 4
+        return out
+    if kind == 6 and n >= 3:      # irregular version of the grid: same length and end points, random interior
+        inner = sorted(g[0] + (g[-1] - g[0]) * rng.randint(1, 63) / 64.0 for _ in range(n - 2))
+        if len(set(inner)) == len(inner) and inner[0] > g[0] and inner[-1] < g[-1]:
+            return [g[0]] + inner + [g[-1]]
+    # the identical grid as a different array object
+    return list(g)
 
 
 SCALARS = [2.0, 0.5, -1.0, 4.0, 0.25, 3.0, 1.5, 0.0, 2, -3]
